@@ -34,6 +34,8 @@ PAYLOADS = [
                         "size": 12345, "md5": "0" * 32}},
     lambda r: {"deep": {"deeper": {"deepest": {"x": [[[[r.randint(0, 9)]]]]}}}},
     lambda r: None if r.random() < 0.3 else {"z": None, "r": r.randint(0, 9)},
+    lambda r: {"signatures": {}, "signed": {"inner": r.randint(0, 99)}},                                  # a payload that looks like an envelope
+    lambda r: {"signatures": {"ab" * 32: {"signature": "cd" * 64}}, "signed": [r.randint(0, 99)]},
 ]
 
 ALT_SPELLINGS = [
